@@ -37,6 +37,8 @@ type c20client struct {
 	// either way, so XL without a lookup is as good as the database's verdict
 	altXL bool
 	ipKey string // the address without port: clients with equal ipKey must get equal labels
+	// further source ports the client used (c20s: one per connection, one for UDP)
+	morePorts map[string]bool
 }
 
 var c20private = []netip.Prefix{netip.MustParsePrefix("10.0.0.0/8"), netip.MustParsePrefix("172.16.0.0/12"), netip.MustParsePrefix("192.168.0.0/16"), netip.MustParsePrefix("100.64.0.0/10"), netip.MustParsePrefix("fc00::/7")}
@@ -260,7 +262,7 @@ func postC20(rc *RunCtx, res *simrt.Result) {
 					}
 					lv := strings.ToLower(v)
 					for _, c := range d.clients {
-						if lv == c.port {
+						if lv == c.port || c.morePorts[lv] {
 							rc.Failf("client-port-exposed", "metric %s label %s=%q equals a client's source port", mf.GetName(), n, v)
 						}
 						for _, f := range c.forms {
@@ -276,6 +278,24 @@ func postC20(rc *RunCtx, res *simrt.Result) {
 			}
 			if err := enc.Encode(mf); err != nil {
 				return nil, err
+			}
+		}
+		// every location label anywhere (UDP per-location counters, per-location
+		// bytes and tunnel time included) belongs to the class of some client of the run
+		locOK := map[string]bool{}
+		for _, c := range d.clients {
+			for _, w := range c.want {
+				locOK[w] = true
+			}
+			if c.altXL {
+				locOK["XL"] = true
+			}
+		}
+		for _, mf := range mfs {
+			for _, m := range mf.GetMetric() {
+				if loc, has := labelsOf(m)["location"]; has && !locOK[loc] {
+					rc.Failf("location-label-unexpected:"+loc, "metric %s carries location %q, no client of the run belongs to that class (acceptable: %v)", mf.GetName(), loc, simrt.SortedKeys(locOK))
+				}
 			}
 		}
 		// location labels by class: the opened connections must be explainable by
@@ -502,7 +522,9 @@ func runC20s(rc *RunCtx) {
 		doUDP := G.Draw(2) == 0
 		simrt.GoNamed(fmt.Sprintf("c20s-client-%d", i), func() {
 			ta := c.addr.(*net.TCPAddr)
+			c.morePorts = map[string]bool{fmt.Sprint(ta.Port + 5): true}
 			for k := 0; k < nConn; k++ {
+				c.morePorts[fmt.Sprint(ta.Port+k*1000)] = true
 				cc, err := tsrv.W.Connect(&net.TCPAddr{IP: ta.IP, Port: ta.Port + k*1000, Zone: ta.Zone}, tsrv.IP, tsrv.Port)
 				if err != nil {
 					continue
